@@ -269,6 +269,11 @@ class SimMachine:
         CTL.reset(fault, list_seed, sched_seed)
         CTL.classify = classify
         CTL.active = True
+        try:  # a thread pool started by the code under test draws its task order from this attempt's schedule seed
+            from . import simproc as _sp
+            _sp._SCHED["default"] = random.Random(f"sched/fs/{sched_seed}")
+        except Exception:
+            pass
         status, result, error = "ok", None, None
         try:
             result = fn()
